@@ -1,6 +1,9 @@
 import Gallia.Lib.Proto
 import Gallia.Model.UdsMatch
 import Gallia.Spec.Reply
+import Gallia.Model.ClientMatch
+import Gallia.Model.UdsHelpers
+import Gallia.Gen.C03Tables
 open Gallia Gallia.Proto Gallia.UdsReq Gallia.UdsResp Gallia.UdsMatch
 
 /-
@@ -13,7 +16,58 @@ open Gallia Gallia.Proto Gallia.UdsReq Gallia.UdsResp Gallia.UdsMatch
     r <request pdu> <reply>          ->  1 | 0         `rawPosMatches reply (.raw request)` (RawPositiveResponse.matches)
     c <k> <qk|g> <rdid> <qdid>       ->  1 | 0         `convMatches`
     echo <sid>                       ->  <n> | none    `echoLen`
+    s <maxRetry> <request pdu> <f1,f2,…> -> <result> reads=<n> writes=<n> ev=<e1,e2,…>
+          `ClientMatch.request` in the world where read #k returns frame fk (hex; `-` = b"", `T` = TimeoutError,
+          `C` = ConnectionError; silence after the last), writes and reconnects succeed, client timeout 1 s, no latency;
+          result = ret:<k>:<ResponseClass>:<1 iff trigger_request is the request> | refused:<k>:mismatch|malformed |
+                   missing:<0|1> | stuck | connEscaped:<k> | reconnectFailed | internal;  ev = `classifyRd` of the frames read
+    k <request pdu> <frame>          ->  the event `classifyRead` gives the frame
+    h <n|c|p> <code>                 ->  <svc><sub><id> <raise>   the three `suggests_*` helpers (1/0 each) and `raise_for_error`
+          on n: NegativeResponse(3E, code) bound to a request, c: the bare code (raise: `-`), p: a positive response
+    hu <code>                        ->  <raise>   `raise_for_error` on a NegativeResponse without trigger_request
 -/
+open Gallia.Client Gallia.ClientIO Gallia.ClientMatch Gallia.UdsHelpers in
+def showEv : Ev → String
+  | .timeout => "timeout" | .connErr => "connErr" | .empty => "empty" | .busy => "busy" | .pending => "pending"
+  | .mismatch => "mismatch" | .malformed => "malformed" | .negFinal => "negFinal" | .posFinal => "posFinal"
+
+open Gallia.ClientMatch in
+def parseFrame (t : String) : Option Rd :=
+  if t == "T" then some .timeout else if t == "C" then some .connErr else (parseHex t).map .data
+
+open Gallia.ClientMatch in
+def worldOf (fs : List Rd) : World := ⟨fun _ => .ok, fun k => fs.getD k .timeout, fun _ => .ok⟩
+
+open Gallia.ClientMatch in
+def showResult (w : World) : Result → String
+  | .returned k _ _ =>
+    let b := match w.rd k with | .data b => b | _ => []
+    s!"ret:{k}:{className b}"
+  | .refused k .mismatch => s!"refused:{k}:mismatch"
+  | .refused k .malformed => s!"refused:{k}:malformed"
+  | .missing c => s!"missing:{if c then 1 else 0}"
+  | .stuck => "stuck"
+  | .connEscaped k => s!"connEscaped:{k}"
+  | .reconnectFailed .. => "reconnectFailed"
+  | .internal => "internal"
+
+open Gallia.UdsHelpers in
+def showRaise : Raise → String
+  | .returns => "returns" | .valueError => "ValueError" | .keyError => "KeyError"
+  | .raises cls code => s!"raises:{cls}:{code}"
+
+open Gallia.Client Gallia.ClientIO Gallia.ClientMatch in
+def streamStep (mr : Nat) (qb : Bytes) (fs : List Rd) : String :=
+  let r : Req := .raw qb
+  let w := worldOf fs
+  let c : CfgX := resolveX (some 1000) mr none none 0 Limits.std
+  let res := request c r w
+  let n := reads c r w
+  let shown := match res with
+    | .returned k _ q => s!"ret:{k}:{className (match w.rd k with | .data b => b | _ => [])}:{if q == r then 1 else 0}"
+    | other => showResult w other
+  let evs := (List.range n).map (fun k => showEv (classifyRd r (w.rd k)))
+  s!"{shown} reads={n} writes={writes c r w} ev={",".intercalate evs}"
 
 def showOutcome (b : Bytes) : Outcome → String
   | .accepted _ => s!"acc:{className b}"
@@ -51,6 +105,33 @@ def step (line : String) : String :=
     match k.toNat?, rdid.toNat?, qdid.toNat? with
     | some k, some rd, some qd => b01 (convMatches k rd (if qk == "g" then none else qk.toNat?) qd)
     | _, _, _ => "bad-op"
+  | ["s", mr, q, fs] =>
+    match mr.toNat?, parseHex q, (if fs == "[]" then some [] else (fs.splitOn ",").mapM parseFrame) with
+    | some mr, some qb, some frames => streamStep mr qb frames
+    | _, _, _ => "bad-op"
+  | ["k", q, f] =>
+    match parseHex q, parseHex f with
+    | some qb, some b => showEv (Gallia.ClientMatch.classifyRead (.raw qb) b)
+    | _, _ => "bad-op"
+  | ["h", kind, code] =>
+    match code.toNat? with
+    | some c =>
+      let arg : Option Gallia.UdsHelpers.Arg :=
+        if kind == "n" then some (.resp (.neg 0x3E (UInt8.ofNat c))) else if kind == "c" then some (.code c)
+        else if kind == "p" then some (.resp .testerPresent) else none
+      match arg with
+      | none => "bad-op"
+      | some a =>
+        let flags := b01 (Gallia.UdsHelpers.suggestsService a) ++ b01 (Gallia.UdsHelpers.suggestsSubFunction a) ++ b01 (Gallia.UdsHelpers.suggestsIdentifier a)
+        let rz := match a with
+          | .resp x => showRaise (Gallia.UdsHelpers.raiseForError Gallia.Gen.C03Tables.exceptionTable (some (.testerPresent false)) x)
+          | .code _ => "-"
+        s!"{flags} {rz}"
+    | none => "bad-op"
+  | ["hu", code] =>
+    match code.toNat? with
+    | some c => showRaise (Gallia.UdsHelpers.raiseForError Gallia.Gen.C03Tables.exceptionTable none (.neg 0x3E (UInt8.ofNat c)))
+    | none => "bad-op"
   | ["echo", s] =>
     match s.toNat? with
     | some n => showOptNat (echoLen n)
